@@ -663,6 +663,14 @@ func (g *graph) compile(ctx context.Context, opt *graphCompileOptions) (*composa
 		return nil, errors.New("end node not set")
 	}
 
+	// a passthrough node without any data connection never gets a type (and nothing is
+	// parked in toValidateMap for it): it cannot be compiled
+	for key, node := range g.nodes {
+		if node.inputType() == nil || node.outputType() == nil {
+			return nil, fmt.Errorf("node[%s]'s input or output type cannot be inferred: it has no data connection", key)
+		}
+	}
+
 	// toValidateMap isn't empty means there are nodes that cannot infer type
 	for _, v := range g.toValidateMap {
 		if len(v) > 0 {
